@@ -19,6 +19,13 @@ func c11() {
 	t := targetByName(ts, "x86_64")
 	spec := vlib.SpecOf(&seccomp.Policy{DefaultAction: vlib.RetAllow, Syscalls: []seccomp.SyscallGroup{{Names: []string{"getppid"}, Action: vlib.RetErrno}}}, "x86_64")
 	probe := vlib.Probe{Kind: "syscall", NR: uint64(t.Num["getppid"])}
+	var allow []string
+	for _, nm := range t.Names {
+		if nm != "getppid" {
+			allow = append(allow, nm)
+		}
+	}
+	longSpec := vlib.SpecOf(&seccomp.Policy{DefaultAction: vlib.RetErrno, Syscalls: []seccomp.SyscallGroup{{Names: allow, Action: vlib.RetAllow}}}, "x86_64")
 
 	type plan struct {
 		mode   string
@@ -49,7 +56,11 @@ func c11() {
 	distinct := map[string]bool{}
 	vlib.Parallel(len(plans), func(i int) {
 		pl := plans[i]
-		cc := &vlib.ChildCase{Policy: spec, Flags: pl.flags, NNP: pl.nnp, Unprivileged: pl.unpriv, Probes: []vlib.Probe{probe}, NNPCase: &vlib.NNPCase{Mode: pl.mode, GoMaxProcs: []int{0, 1, 2, 4}[i%4], CallerLocked: i%5 == 4}}
+		pol := spec
+		if i%3 == 2 {
+			pol = longSpec
+		}
+		cc := &vlib.ChildCase{Policy: pol, Flags: pl.flags, NNP: pl.nnp, Unprivileged: pl.unpriv, Probes: []vlib.Probe{probe}, NNPCase: &vlib.NNPCase{Mode: pl.mode, GoMaxProcs: []int{0, 1, 2, 4}[i%4], CallerLocked: i%5 == 4}}
 		desc := fmt.Sprintf("case %d: mode=%s unprivileged=%v NoNewPrivs=%v flags=%#x strace=%v", i, pl.mode, pl.unpriv, pl.nnp, pl.flags, pl.strace)
 		res, err := vlib.RunChild(bin, "nnp", cc, pl.strace, 60*time.Second)
 		if err != nil || res.TimedOut || res.Line("done") == nil {
